@@ -13,6 +13,7 @@ func init() {
 		level: "other",
 		explanation: "Static decision of the plumbing of exclusion patterns, which is where a compiling mutation hides (every pattern parameter is variadic: omitting it compiles). Over E, the functions of package filesystem that carry exclusion patterns (a `...string` exclusion parameter or a []*regexp.Regexp): (E1) never dropped — every call from a member of E to another member passes, in the callee's exclusion position, a value derived from the caller's own patterns; a call with zero variadic patterns, or a call (directly or through helpers that carry no patterns) to the pattern-less sibling of a recursive operation is a violation; (E2) always used — every member forwards or applies its patterns; (E3) every loop over a directory listing in a member iterates a list that was filtered with the patterns, or guards each use of the item with !IsPathExcluded(item, patterns): this is what keeps everything beneath an excluded directory untouched — it is never descended; (E4) in every exported member taking pattern strings, a compilation of the patterns whose error is an error exit precedes every mutating effect, so invalid patterns are rejected before anything is touched. Decided on SSA with an effect summary of the package; nothing is executed. Not decided: what the expanded regular expressions match on actual names, completeness ('does process every entry none of whose components matches').",
 		run:   runC08,
+		thoroughConfigs: []string{"darwin/amd64", "windows/amd64"},
 		assumptions: []string{
 			"regexp.MatchString on the expanded pattern list implements 'name matched in full by a pattern' for the names the property quantifies over",
 		},
@@ -87,6 +88,7 @@ func runC08(c *Ctx) {
 	c.rule("E1", "exclusion patterns are never dropped on the way down: calls between pattern-carrying functions pass values derived from the caller's patterns; no call to a pattern-less recursive operation, directly or through helpers", 12)
 	c.rule("E2", "every pattern-carrying function forwards or applies its patterns", 15)
 	c.rule("E3", "loops over directory listings iterate a list filtered with the patterns, or guard each use of the item with !IsPathExcluded", 4)
+	c.rule("E5", "inside loops over directory listings the patterns are applied to the listed names, not to joined paths", 1)
 	c.rule("E4", "exported functions taking pattern strings compile them (error → error exit) before their first mutating effect", 8)
 
 	s := &c08State{c: c, eff: c.computeEffects(), E: map[*ssa.Function][]int{}}
@@ -203,6 +205,45 @@ func runC08(c *Ctx) {
 
 	s.loops(members)
 	s.compileFirst(members)
+	s.namesNotPaths(members)
+}
+
+// E5: inside a loop over a directory listing the patterns are applied to the listed name itself, never to a path
+// built from it: a joined path can be matched across the separator by a pattern none of whose components matches
+// (`a.b` matches "a/b"), so entries the patterns do not name would be skipped.
+func (s *c08State) namesNotPaths(members []*ssa.Function) {
+	c := s.c
+	for _, f := range members {
+		withAnon(f, func(h *ssa.Function) {
+			allInstrs(h, func(in ssa.Instruction) {
+				cl, ok := in.(*ssa.Call)
+				if !ok || !inLoop(cl) {
+					return
+				}
+				n := calleeFull(&cl.Call)
+				if !strings.HasSuffix(n, "filesystem.IsPathExcluded") && !strings.HasSuffix(n, "filesystem.IsPathExcludedFromPatterns") {
+					return
+				}
+				if !s.derivesP(cl.Call.Args[len(cl.Call.Args)-1], h) {
+					return
+				}
+				joined := false
+				for _, l := range sources(cl.Call.Args[0], deriveOpts{}) {
+					if jc, ok := l.(*ssa.Call); ok {
+						jn := calleeFull(&jc.Call)
+						if jn == "path/filepath.Join" || jn == "path.Join" || strings.HasSuffix(jn, "filesystem.FilePathJoin") {
+							joined = true
+						}
+					}
+					if bo, ok := l.(*ssa.BinOp); ok && bo.Type().String() == "string" {
+						joined = true
+					}
+				}
+				key := fname(f) + "/filter-operand"
+				c.check(!joined, "E5", key, c.ipos(cl), "the patterns are applied to the listed name", "inside the loop over a directory listing the patterns are applied to a joined path instead of the listed name: a pattern such as `a.b` then matches across the separator (\"a/b\") and entries none of whose components matches are skipped")
+			})
+		})
+	}
 }
 
 // E3
